@@ -566,3 +566,50 @@ func (s *Stream) Feed(b []byte) []Item {
 	s.m.res.Items = nil
 	return out
 }
+
+// ParseSegments parses the concatenation of the segments; longGap[i] says that
+// after segment i the input stays silent for longer than the Escape
+// disambiguation delay.  If the automaton has just consumed an ESC at that
+// point, the documented behaviour is: the Escape key is reported (C0 1B) and
+// parsing continues from ground.
+func ParseSegments(segs [][]byte, longGap []bool, opt Options) Result {
+	m := &machine{opt: opt}
+	off := 0
+	var carry []byte
+	lastESC := false
+	for i, seg := range segs {
+		buf := append(carry, seg...)
+		carry = nil
+		j := 0
+		for j < len(buf) {
+			if !utf8.FullRune(buf[j:]) && i+1 < len(segs) {
+				carry = append([]byte{}, buf[j:]...)
+				break
+			}
+			r, n := utf8.DecodeRune(buf[j:])
+			if r == utf8.RuneError && n <= 1 {
+				off++
+				m.step(Rune{R: rune(buf[j]), End: off, Invalid: true})
+				j++
+				lastESC = false
+				continue
+			}
+			j += n
+			off += n
+			m.step(Rune{R: r, End: off})
+			lastESC = r == 0x1b
+		}
+		if i < len(longGap) && longGap[i] && lastESC && len(carry) == 0 && m.st == sEscape {
+			m.emit(Item{Kind: C0, Code: 0x1b, End: off})
+			m.st = sGround
+			m.swallowST = false
+			m.strUnits = 0
+		}
+	}
+	m.flushRun(off)
+	switch m.st {
+	case sOsc, sDcsPass, sApc:
+		m.exit(off, true)
+	}
+	return m.res
+}
